@@ -135,3 +135,25 @@ package sub
 //@   ensures result.Self == 33 && result.Peer == 32 && result.SelfName == "sub" && result.PeerName == "pub"
 //@
 // ---- end generated Info contracts ----
+
+// ---- generated wrapper contracts (tools/gen_wrapper_contracts.py) ----
+//@ func NewSocket
+//@   ghost pr = result at call:NewProtocol#1
+//@   ghost so = result at call:MakeSocket#1
+//@   before call:NewProtocol#1 assert callee_is("protocol/sub.NewProtocol")
+//@   before call:MakeSocket#1 assert arg0 == pr
+//@   ensures isnil(result1) && result0 == so
+// ---- end generated wrapper contracts ----
+
+// ---- round 12: the socket-level option calls are the default context's ----
+//@ func (*socket).GetOption
+//@   ghost v = result0 at call:GetOption#1
+//@   ghost e = result1 at call:GetOption#1
+//@   before call:GetOption#1 assert recv == s.master && arg0 == name
+//@   ensures name == protocol.OptionRaw ==> isnil(result1) && result0 == iface(false)
+//@   ensures name != protocol.OptionRaw ==> result0 == v && result1 == e
+//@
+//@ func (*socket).SetOption
+//@   ghost e = result at call:SetOption#1
+//@   before call:SetOption#1 assert recv == s.master && arg0 == name && arg1 == val
+//@   ensures result == e
